@@ -19,8 +19,8 @@ func init() {
 			"A-IDX-NONNEG as in C01",
 		},
 		Rules: []RuleDef{
-			{Name: "C14-IDX", Floor: 25, Doc: "every index/slice of the input in std/protowire and std/php/unserialize.go is in bounds on every path (zone abstract interpretation, Consume* contract modelled)", Run: c14Run},
-			{Name: "C14-ALL", Floor: 2, Doc: "decoders that do not return a remainder return success only with len(data) == 0", Run: nop},
+			{Name: "C14-IDX", Floor: 16, Doc: "every index/slice of the input in std/protowire and std/php/unserialize.go is in bounds on every path (zone abstract interpretation, Consume* contract modelled)", Run: c14Run},
+			{Name: "C14-ALL", Floor: 1, Doc: "decoders that do not return a remainder return success only with len(data) == 0", Run: nop},
 			{Name: "C14-DEPTH", Floor: 2, Doc: "every recursion cycle among the protowire parser's functions passes the depth guard and increments depth; unserialize's recursion is listed", Run: nop},
 			{Name: "C14-ALLOC", Floor: 1, Doc: "make(…, n) with n parsed from the input is dominated by an upper bound tied to the remaining input", Run: nop},
 		},
